@@ -112,6 +112,9 @@ def ROp.ok (h : H) : ROp → Prop
   | .truncate _ => h.canTruncate = true
   | _ => True
 
+instance (h : H) (op : ROp) : Decidable (op.ok h) := by
+  cases op <;> simp only [ROp.ok] <;> infer_instance
+
 /-- the abstract operation a call stands for (none for a flag command: the abstract file does not change) -/
 def ROp.toAOp (h : H) : ROp → Option (AOp (List Byte))
   | .read _ _ k => some (.read k)
